@@ -254,6 +254,11 @@ where
     let mut p = if !spec["open"].is_null() {
         let (v, r) = opening_of(&spec["open"]);
         params.pc_gens().commit(&Scalar::from(v), &r).map_err(|e| err_name(&e))?
+    } else if !spec["open_std"].is_null() {
+        // the commitment under the STANDARD Pedersen generators of this extension degree, whatever generators the statement carries
+        let (v, r) = opening_of(&spec["open_std"]);
+        let std = P::pedersen(params.g_bases().len());
+        std.commit(&Scalar::from(v), &r).map_err(|e| err_name(&e))?
     } else if let Some(tag) = spec["junk"].as_u64() {
         P::junk(tag)
     } else if !spec["identity"].is_null() {
